@@ -13,6 +13,8 @@ line: C09 hist <op> <op> ...        one whole history per line (TAB separated op
                                            items may be strings, integers and {"d": [token, length, scale]} = a Dtype OBJECT
   D|<dep>|<json [token, length, scale, mode]>          Dtype(token, length, scale)  (mode 'array': Array(token).dtype;
                                            mode 'obj' + [scale2, length2]: Dtype(<that Dtype object>[, length2], scale=scale2))
+  E|<dep>|<i>|<json argA>|<json argB>      equality / hash / set and dict membership between the Dtype OBJECT made at step i
+                                           (a D step with arguments argA; re-created when run cold) and Dtype(argB) made now
   A|<dep>|<name>|<json values>             Array(Dtype(name, scale='auto'), values)   (builds Array._largest_values once)
   N|<dep>|<json [route, cls, name, length, value]>
         construct from a (dtype, value) pair without going through a string: kw cls(name<length>=value), kwl
@@ -540,8 +542,14 @@ def run_op(f, operand=None):
         if k == "D":
             r = _d_call(f[2])
             if isinstance(r, list):
-                return "ok " + "&".join(canon_dtype(x, True) for x in r), None
-            return "ok " + canon_dtype(r, True), None
+                return "ok " + "&".join(canon_dtype(x, True) for x in r), r[1]
+            return "ok " + canon_dtype(r, True), r
+        if k == "E":
+            a = operand if isinstance(operand, Dtype) else _d_call(f[3])
+            b = _d_call(f[4])
+            obs = [a == b, b == a, not (a != b), hash(a) == hash(b), b in {a}, a in {b}, {a: 1}.get(b) == 1, b in [a],
+                   [a].count(b), (a, 0) == (b, 0)]
+            return "ok " + "".join(str(int(x)) for x in obs), None
         if k == "A":
             r = _a_call(f[2], f[3]); return "ok " + canon(r), None
         if k == "B":
@@ -745,7 +753,11 @@ def execute(line):
                 if k == "B":
                     x = objs.get(int(f[3])) if f[3] != "-" else None
                     operand = x.bin if isinstance(x, Bits) and len(x) <= 4096 else FIXED_OPERAND
-                c, obj = run_op(f, operand)
+                if k == "E":
+                    # warm: the object kept from step i; cold / fresh: both Dtypes are created on the spot
+                    c, obj = run_op(f, objs.get(int(f[2])))
+                else:
+                    c, obj = run_op(f, operand)
                 warm.append(c)
                 if obj is not None:
                     objs[i] = obj
@@ -827,7 +839,7 @@ def execute(line):
             # may have been remembered (negative memo) — such a step is evaluated alone as well (at most 10 per history)
             failed, extra_pick = [], []
             for i in call_idx:
-                if ops[i][0] in "UPKDNA" and warm[i].startswith("err"):
+                if ops[i][0] in "UPKDNA" and ops[i][0] != "E" and warm[i].startswith("err"):
                     t = _op_tokens(ops[i])
                     if len(extra_pick) < 10 and any(o2 != ops[i] and (t & t2) for o2, t2 in failed):
                         extra_pick.append(i)
@@ -1318,6 +1330,7 @@ def history(rng, length, focus, flips, safe):
     pool_s, pool_other = [], []          # earlier call ops, for re-use (cache hits)
     sem_seen = {}                        # text -> abstract result first seen (safe mode)
     obj_steps = []
+    d_steps = []
     weights = {"str":    dict(S=0.62, K=0.05, P=0.05, U=0.05, D=0.05, A=0.01, B=0.07, M=0.04),
                "fmt":    dict(S=0.12, K=0.2, P=0.27, U=0.25, D=0.03, A=0.01, B=0.07, M=0.03),
                "tok1":   dict(S=0.1, K=0.72, P=0.03, U=0.03, D=0.03, A=0.01, B=0.06, M=0.02),
@@ -1422,9 +1435,14 @@ def history(rng, length, focus, flips, safe):
                 n = rng.randint(1, 300)
                 op = "P|-|%s|%s|%s" % (J(rng.choice(["uint:n=a, int:n", "uint:n, uint:n=a", "hex:n, uint:n=a"])), J([1 if rng.random() < .5 else "f" * 75][:1]),
                                        J({"n": n if rng.random() < 0.7 else 300, "a": rng.randint(0, 1)}))
-            elif r < 0.5:                        # values that read options: exp-Golomb and overflowing mxfp
+            elif r < 0.45:                       # values that read options: exp-Golomb and overflowing mxfp
                 op = "P|-|%s|%s|{}" % (J(rng.choice(["ue, e4m3mxfp", "e5m2mxfp, se", "e4m3mxfp, e5m2mxfp", "uie, sie"])),
                                        J([rng.randint(0, 50), rng.choice([1000.0, 1e6, 3.0])]))
+            elif r < 0.55:                       # … written in the format string, or passed as strings / keyword strings
+                v1, v2 = rng.choice(["1000", "1e6", "-70000.5", "inf", "3.0"]), str(rng.randint(0, 40))
+                op = rng.choice(["P|-|%s|[]|{}" % J("e4m3mxfp=%s, ue=%s" % (v1, v2)), "P|-|%s|[]|{}" % J("e5m2mxfp=%s" % v1),
+                                 "P|-|%s|%s|{}" % (J("e4m3mxfp, e5m2mxfp"), J([v1, v1])), "P|-|%s|%s|{}" % (J("se, uie"), J([v2, v2])),
+                                 "P|-|%s|[]|%s" % (J("e4m3mxfp=a, sie=b"), J({"a": v1, "b": v2})), "P|-|%s|[]|{}" % J("sie=%s, 0x1" % v2)])
             else:
                 fmt, vals = gen_format(rng, stress)
                 op = "P|-|%s|%s|{}" % (J(fmt), J(vals))
@@ -1519,6 +1537,17 @@ def history(rng, length, focus, flips, safe):
                 ops.append(rng.choice([o for o in pool_other[-60:] if o.startswith("D|")])); continue
             dep, arg = gen_dtype(rng, stress, focus)
             op = "D|%s|%s" % (dep, arg)
+            if arg.endswith('"dtype"]') and rng.random() < 0.3:
+                d_steps.append((len(ops), arg))
+            if d_steps and rng.random() < 0.12:
+                pool_other.append(op); ops.append(op)
+                i0, a0 = rng.choice(d_steps[:40] if rng.random() < 0.5 else d_steps)
+                t0 = json.loads(a0)
+                alt = a0
+                if isinstance(t0[1], int) and t0[0].isalpha():          # another spelling of the same dtype
+                    alt = J([rng.choice(["%s%d", "%s:%d"]) % (t0[0], t0[1]), None, t0[2], "dtype"])
+                ops.append("E|-|%d|%s|%s" % (i0, a0, rng.choice([a0, alt])))
+                continue
             pool_other.append(op); ops.append(op)
         elif k == "A":
             name, vals = gen_auto(rng)
@@ -1756,6 +1785,8 @@ def targeted(rng, tier):
         for route in ("prop", "propl", "kw", "kwl", "pack", "packkw"):
             segs = []
             for si, sample in enumerate(N_SAMPLES):
+                if route not in ("prop", "propl") and (si + len(route)) % 2:
+                    continue                         # the non-assignment first routes take every other sample
                 for kind in (("append1", "invert") if route in ("prop", "propl") else ("append1",)):
                     other = MUTABLE[(MUTABLE.index(cls) + 1) % 2]
                     seg = [n_op(route, cls, sample), "M|@0|%s" % kind, n_op("kw", "Bits", sample), n_op("kw", "BitArray", sample),
@@ -1883,6 +1914,42 @@ def targeted(rng, tier):
     for bad, good in pairs:
         H([bad, good, bad, good])
         H([good, bad, good])
+    # 16. Dtype objects kept from BEFORE an eviction storm (> maxsize other creations) compared — ==, !=, hash, set / dict /
+    #     list membership — with the same dtype created after it, in every spelling
+    capd = max(dict(_GEN["sizes"]).get("Dtype._create", 256), dict(_GEN["sizes"]).get("Dtype._new_from_token", 256))
+    kept = [["uint8", None, None, "dtype"], ["uint", 8, None, "dtype"], ["uint:8", None, None, "dtype"], ["float", 32, None, "dtype"],
+            ["float32", None, None, "dtype"], ["bool", None, None, "dtype"], ["hex:12", None, None, "dtype"], ["hex", 12, None, "dtype"],
+            ["int7", None, ["i", 2], "dtype"], ["int", 7, ["i", 2], "dtype"], ["ue", None, None, "dtype"], ["e4m3mxfp", None, None, "dtype"]]
+    same = {0: [0, 1, 2], 1: [0, 1, 2], 2: [0, 1, 2], 3: [3, 4], 4: [3, 4], 5: [5], 6: [6, 7], 7: [6, 7], 8: [8, 9], 9: [8, 9], 10: [10], 11: [11]}
+    for storm in (0, min(capd + 16, 600)):
+        ops = ["D|-|" + J(k_) for k_ in kept]
+        cmp_ops = []
+        for i, k_ in enumerate(kept):
+            for j in same[i]:
+                cmp_ops.append("E|-|%d|%s|%s" % (i, J(k_), J(kept[j])))
+            cmp_ops.append("E|-|%d|%s|%s" % (i, J(k_), J(kept[(i + 3) % len(kept)])))      # a different dtype: must stay unequal
+        ops += cmp_ops
+        for n in range(storm):
+            ops.append("D|-|" + J(["uint" if n % 2 else "int", 100 + n, None, "dtype"]) if n % 3 else
+                       "D|-|" + J(["bits%d" % (100 + n), None, None, "dtype"]))
+        ops += cmp_ops
+        H(ops)
+    # 17. pack with option-reading values written in the format string, passed as strings and as keyword strings, under
+    #     one option value, the other, and the first again — no cache is cleared by the harness in between
+    for opt, texts in (("mxfp", ["e4m3mxfp=1000", "e5m2mxfp=-1e9", "e4m3mxfp=inf, uint:4=3", "2*e5m2mxfp=70000"]),
+                       ("lsb0", ["ue=3", "se=-3", "uie=7, 0x1", "sie=-7", "uint:4=3, ue=12"])):
+        for text in texts:
+            for start in (0, 1):
+                p1 = "P|-|%s|[]|{}" % J(text)
+                H(["O|%s|%d" % (opt, start), p1, "O|%s|%d" % (opt, 1 - start), p1, "O|%s|%d" % (opt, start), p1,
+                   "S|Bits|%s|%s" % ("m" if opt == "mxfp" else "l", text), "O|%s|%d" % (opt, 1 - start), p1])
+    for opt, fmt, vals, kw in (("mxfp", "e4m3mxfp, e5m2mxfp", ["1000", "-1e9"], {}), ("mxfp", "e4m3mxfp=a, uint:8", [5], {"a": "inf"}),
+                               ("mxfp", "e5m2mxfp=a", [], {"a": "1e6"}), ("lsb0", "ue, sie", ["3", "-4"], {}),
+                               ("lsb0", "se=a, bool", [True], {"a": "-9"}), ("lsb0", "uie", ["12"], {})):
+        for start in (0, 1):
+            p1 = "P|-|%s|%s|%s" % (J(fmt), J(vals), J(kw))
+            H(["O|%s|%d" % (opt, start), p1, "O|%s|%d" % (opt, 1 - start), p1, "O|%s|%d" % (opt, start), p1, p1,
+               "O|%s|%d" % (opt, 1 - start), p1])
     return out
 
 
